@@ -10,7 +10,7 @@ THEOREMS = ["C02.sets_closed", "C02.sets_exact", "C02.fuel_enough", "C02.det_com
 RULE = ("one case = one generated grammar (generators and dimensions as C01 - observer methods between parses, keyword arguments of parse, templates, argument kinds, several parser objects, "
         "str / list-of-lines input - with more LL(1)-ish grammars, groups of 3-9 alternatives behind one leading symbol (suffix symbols with more "
         "than 5 productions survive the smart undo), a well-formed non-left-recursive grammar must be accepted with both "
-        "settings, incl. unit productions over a nullable symbol declared before productions "
+        "settings, incl. a nullable non-terminal twice in an all-non-terminal production (W B W, K V K V) and unit productions over a nullable symbol declared before productions "
         "starting with the same symbol; right-recursive LL(1) grammars on sentences and non-sentences of "
         "150, 500 and 2000 tokens; every 50th accepted grammar is also used by two threads at once and each call must give the "
         "sequential answer), constructed with "
